@@ -66,5 +66,7 @@ def check(model: Model, report: Report) -> None:
                 report.fail("R16.4", w.fn.qualname, f"shared-write:{w.key()}", f"{q} is shared by every compile()/find(); it is written in {w.fn.name}", file=w.fn.file, line=w.line)
         else:
             report.ok("R16.4", q, "written only under construction")
+    for ci_, name_, w in effects.class_level_mutable_writes(model):
+        report.fail("R16.4", w.fn.qualname, f"class-level-container-written:{ci_.name}.{name_}:{w.detail}", f"{ci_.name}.{name_} is one container shared by all instances (created in the class body, never rebound per instance); {w.kind} {w.receiver}.{w.detail} makes concurrent compilations / iterators interfere", file=w.fn.file, line=w.line)
     report.extra["explanation"] = "C16: write-effect analysis restricted to evaluation/compile code, frozen-after-construction, context escape."
     report.extra["exhaustive"] = True
